@@ -33,10 +33,11 @@ class ElfPrims:
             self.elf_entry_points.add(name)
         if name == self.empty:
             return [(("ref_axe",), path)]
-        if short in ("push", "insert") and args and args[0][0] == "ref":
+        if short in ("push", "insert", "contains_key", "get", "entry") and args and args[0][0] == "ref":
             names = [p_[2] for p_ in args[0][1][1] if isinstance(p_, tuple) and p_[0] == "f"]
             ev.append(("coll", short, tuple(names), tuple(I.norm_arg(path, a) for a in args[1:])))
-            return None
+            if short in ("push", "insert"):
+                return None
         if name.startswith("elf::elf::elf::ElfBytes") and short == "minimal_parse":
             p2 = path.copy()
             return [(A.OK(ELF), path), (A.ERR(("parse_err",)), p2)]
